@@ -2,7 +2,7 @@ SPECIFICATION Spec
 CONSTANTS
   KD = 8
   ResetFastOnClear = TRUE
-  FastPathAutoClean = TRUE
+  FastPathAutoClean = FALSE
   TruncateChunkOnClear = TRUE
   ChunkSizes = {1, 2, 3}
   Keys = {1, 2}
